@@ -44,9 +44,9 @@ func hOrderSites(sv int) {
 //
 //	nT target parameters, each with a supplied value of exactly its label;
 //	nX further (distractor) values; convCode distractor converters.
-func HarnessC03(fam, nT, nX, convCode, form, sv int) {
+func HarnessC03(fam, nT, nX, convCode, form, sv, mode int) {
 	hOrderSites(sv)
-	w := hTemplate(fam, nT, nX, convCode, form, 0)
+	w := hTemplate(fam, nT, nX, convCode, form, mode&^1)
 	// the exact inputs: one per parameter, same name, type and subtype
 	seen := map[string]bool{}
 	for _, v := range w.Vals {
@@ -113,9 +113,9 @@ func HarnessC03(fam, nT, nX, convCode, form, sv int) {
 func (w *hWorld) classifyExact() string { return "" }
 
 // HarnessC04 — a failing converter aborts the call and its error is returned verbatim.
-func HarnessC04(fam, nT, nV, convCode, form, sv int) {
+func HarnessC04(fam, nT, nV, convCode, form, sv, mode int) {
 	hOrderSites(sv)
-	w := hTemplate(fam, nT, nV, convCode, form, 1)
+	w := hTemplate(fam, nT, nV, convCode, form, 1|mode)
 	// the target returns one value and a final error which it may report
 	w.Target.HasErr = true
 	w.Target.Fails = vnBool("fails", 0)
@@ -216,9 +216,9 @@ func hOutcome(r Result, panicked bool) int {
 
 // HarnessC05 — conversion chaining is complete on well-behaved converter sets
 // and the outcome is stable under the iteration order.
-func HarnessC05(fam, nT, nV, convCode, form, sv int) {
+func HarnessC05(fam, nT, nV, convCode, form, sv, mode int) {
 	hOrderSites(sv)
-	w := hTemplate(fam, nT, nV, convCode, form, 0)
+	w := hTemplate(fam, nT, nV, convCode, form, mode&^1)
 	vnNote(w.String())
 	singleInput := true
 	for _, c := range w.Convs {
@@ -283,29 +283,50 @@ func (w *hWorld) classifyComplete() string { return "" }
 
 // HarnessC07 — name affinity decides between equal candidates.
 //
-//	kind 0: named parameter n:T2, one type-only converter T1->T2 (form symbolic),
-//	        k supplied named values of type T1, exactly one of them named n:
-//	        the value named n is the one converted.
+//	kind 0: nP named parameters n_i:T2 (distinct names), one type-only converter T1->T2
+//	        (form symbolic), k supplied named values of type T1 with symbolic subtypes,
+//	        one per name: for every parameter the value of the same name is the one converted.
 //	kind 1: named parameter n:T2, converters func(T1) T2 and func(struct{N T1}) T2 in
 //	        both registration orders, supplied n:T1 (and k-1 other named T1 values):
 //	        the converter naming n is the one executed.
 func HarnessC07(kind, k, form, sv int) {
 	hOrderSites(sv)
 	names := []string{"a", "b", "c", "d"}
-	nIdx := vnChoice("n", k)
-	n := names[nIdx]
+	nP := 1
+	if kind >= 10 {
+		nP = kind / 10
+		kind = kind % 10
+	}
+	var pIdx []int
+	for i := 0; i < nP; i++ {
+		x := hPick("n", k, i)
+		for _, y := range pIdx {
+			if y == x {
+				vnAssume(false)
+			}
+		}
+		pIdx = append(pIdx, x)
+	}
+	n := names[pIdx[0]]
 	t1, t2 := hTP0, hTP1
 	if vnBool("swapTypes") {
 		t1, t2 = hTP1, hTP0
 	}
 	w := &hWorld{}
-	w.Target = hFuncSpec{ID: 0, Form: hFormStruct, In: []hLabel{{Name: n, T: t2}}}
+	w.Target = hFuncSpec{ID: 0, Form: hFormStruct}
+	for _, x := range pIdx {
+		w.Target.In = append(w.Target.In, hLabel{Name: names[x], T: t2})
+	}
 	for i := 0; i < k; i++ {
-		w.Vals = append(w.Vals, hVal{L: hLabel{Name: names[i], T: t1}, ID: vnPayload("val", i)})
+		sub := ""
+		if kind == 0 && vnBool("valsub", i) {
+			sub = "s" // a subtype on the supplied value does not matter for a subtype-less parameter
+		}
+		w.Vals = append(w.Vals, hVal{L: hLabel{Name: names[i], T: t1, Sub: sub}, ID: vnPayload("val", i)})
 	}
 	cf := form
 	if form == 9 {
-		cf = vnChoice("cform", 4)
+		cf = hPick("cform", 4)
 	}
 	typedConv := hFuncSpec{ID: 1, Form: cf, In: []hLabel{{T: t1}}, Out: []hLabel{{T: t2}}}
 	if kind == 0 {
@@ -333,31 +354,54 @@ func HarnessC07(kind, k, form, sv int) {
 		return
 	}
 	vnAssert(r.Err() == nil, "C07.call-succeeds")
-	convRuns := 0
+	if r.Err() != nil {
+		return
+	}
+	// the target's log entry tells which converted value each parameter received;
+	// converter executions are matched to parameters through their output terms
+	var tex *hExec
+	for i := range w.Log {
+		if w.Log[i].Fn == 0 {
+			tex = &w.Log[i]
+		}
+	}
+	vnAssert(tex != nil, "C07.target-ran")
+	if tex == nil {
+		return
+	}
+	for pi, x := range pIdx {
+		// some converter execution fed by the same-named value produced what parameter pi received
+		ok := false
+		for _, ex := range w.Log {
+			if ex.Fn == 0 || len(ex.Recv) != 1 || len(ex.Out) != 1 {
+				continue
+			}
+			spec := w.specOf(ex.Fn)
+			if kind == 1 && spec.In[0].Name != n {
+				continue
+			}
+			if ex.Recv[0].T == t1 {
+				ok = vnOr(ok, vnAnd(ex.Recv[0].ID == w.Vals[x].ID, tex.Recv[pi].ID == ex.Out[0].ID))
+			}
+		}
+		vnAssert(ok, "C07.same-named-value-is-converted-for-each-parameter")
+	}
 	for _, ex := range w.Log {
 		if ex.Fn == 0 {
 			continue
 		}
-		convRuns++
-		spec := w.specOf(ex.Fn)
 		if kind == 1 {
-			vnAssert(spec.In[0].Name == n, "C07.converter-naming-the-parameter-is-executed")
-		}
-		if len(ex.Recv) == 1 {
-			vnAssert(ex.Recv[0].T == t1 && ex.Recv[0].ID == w.Vals[nIdx].ID, "C07.same-named-value-is-converted")
+			vnAssert(w.specOf(ex.Fn).In[0].Name == n, "C07.converter-naming-the-parameter-is-executed")
 		}
 	}
-	if r.Err() == nil {
-		vnAssert(convRuns == 1, "C07.exactly-one-conversion")
-		vnCover("C07.conversion-checked")
-	}
+	vnCover("C07.conversion-checked")
 }
 
 // HarnessC13 — the unsatisfied-argument error reports what is truly missing
 // and what was given.
-func HarnessC13(fam, nT, nV, convCode, form, sv int) {
+func HarnessC13(fam, nT, nV, convCode, form, sv, mode int) {
 	hOrderSites(sv)
-	w := hTemplate(fam, nT, nV, convCode, form, 0)
+	w := hTemplate(fam, nT, nV, convCode, form, mode&^1)
 	vnNote(w.String())
 	// hopeless parameter: no supplied value and no converter output compat-matches it
 	hopeless := make([]bool, len(w.Target.In))
@@ -402,7 +446,7 @@ func HarnessC13(fam, nT, nV, convCode, form, sv int) {
 		return
 	}
 	lbl := func(v *Value) (hLabel, bool) {
-		for t := 0; t < 4; t++ {
+		for t := 0; t < len(hTypeNames); t++ {
 			if v.Type == hType(t) {
 				return hLabel{Name: v.Name, T: t, Sub: v.Subtype}, true
 			}
